@@ -73,6 +73,13 @@ func (fr *Frame) expr(st *State, e ast.Expr) Val {
 		r.Ty = fr.typeOf(e)
 		r = x.bind(r, "sl")
 		fr.sliceFmt(b, lo, hi, r)
+		if _, isSlice := fr.typeOf(n.X).Underlying().(*types.Slice); isSlice && hi != nil && !n.Slice3 {
+			// s[lo:hi] with hi < len(s): the result's spare capacity is s[hi:], elements s still shows
+			if x.sharedOf == nil {
+				x.sharedOf = map[string]string{}
+			}
+			x.sharedOf[r.T] = "(not (= " + hi.T + " " + x.lenOf(st, b).T + "))"
+		}
 		return r
 	case *ast.StarExpr:
 		p := fr.expr(st, n.X)
@@ -272,6 +279,7 @@ func (fr *Frame) composite(st *State, n *ast.CompositeLit, addr bool) Val {
 				for j := 0; j < tt.NumFields(); j++ {
 					if tt.Field(j).Name() == name {
 						vals[j] = fr.exprAs(st, kv.Value, tt.Field(j).Type())
+						fr.aliasCheck(st, kv.Value, tt.Field(j), vals[j])
 					}
 				}
 			} else {
@@ -673,4 +681,18 @@ func isLibModelled(t types.Type) bool {
 		}
 	}
 	return false
+}
+
+// aliasCheck: slices are modelled as values, so a slice stored in a field must not share spare
+// capacity with another live slice if the field is ever the target of an append (the append
+// would overwrite elements the other slice still shows, which the value model cannot see).
+// A two-index reslice s[lo:hi] stored into such a field has to be cut at the end of s.
+func (fr *Frame) aliasCheck(st *State, n ast.Node, f *types.Var, v Val) {
+	x := fr.x
+	cond, ok := x.sharedOf[v.T]
+	if !ok || !x.eng.fieldAppended(f) {
+		return
+	}
+	x.used("slices are values in the model: a reslice stored into a field that is appended to must not share its spare capacity (obligation alias:...)")
+	x.u.oblige("alias:reslice-with-shared-capacity-stored-in-appended-field:"+f.Name(), "alias", "a reslice stored in field "+f.Name()+" (target of append elsewhere) is cut at the end of the slice it comes from", fr.pos(n.Pos()), st.pc, "(not "+cond+")")
 }
